@@ -35,6 +35,7 @@ CONSTANTS N,                 \* elements the application's generator / observabl
           FailAt,            \* 0: never; k >= 1: the application raises when asked for its k-th element
           Buffered,          \* plain observable behind the adapter: the application is drained at subscribe time
           RestartsOnLateRequest,
+          Replenish,         \* the subscriber calls request(1) from inside every on_next (the usual Reactive Streams idiom)
           Grants,            \* values the application passes to request(); Big stands for MAX_REQUEST_N
           Big,
           MaxCalls, MaxSteps, MaxLate,
@@ -51,6 +52,9 @@ Init == s = [sub |-> FALSE, credit |-> 0, em |-> 0, pulled |-> 0, term |-> "none
              asked |-> <<>>,      \* what a back-pressure factory was told, call by call
              quiet |-> TRUE,      \* nothing left for the loop to do
              repulled |-> 0, calls |-> 0, steps |-> 0, late |-> 0]
+
+(* with a replenishing subscriber the first unit of credit is never used up: every element handed over brings one more *)
+Eff(c) == IF Replenish /\ c > 0 THEN Cap ELSE c
 
 (* what the source owes once the loop has run to quiescence with this much credit *)
 Good(c) == IF FailAt = 0 THEN Min(c, N) ELSE Min(c, FailAt - 1)       \* elements before the failure / the end
@@ -75,7 +79,7 @@ Cancel == s.sub /\ s.term = "none" /\ s' = [s EXCEPT !.term = "cancelled"]     \
 (* the loop runs until nothing is ready *)
 Settled(t) ==
     IF t.term # "none" \/ ~t.sub THEN {[t EXCEPT !.quiet = TRUE]}
-    ELSE LET c == t.credit
+    ELSE LET c == Eff(t.credit)
              fin == Final(c)
          IN { [t EXCEPT !.em = e, !.pulled = IF Buffered THEN 0 ELSE Good(c), !.term = fin, !.quiet = TRUE] :
                 e \in IF fin = "error" THEN t.em .. Good(c) ELSE {Good(c)} }
@@ -86,10 +90,11 @@ Run == ~s.quiet /\ s' \in Settled(s)
 (* the loop runs j iterations only: anything between where it is and where Run would take it *)
 Step(j) ==
     /\ ~s.quiet /\ s.steps < MaxSteps /\ s.sub /\ s.term = "none"
-    /\ \E e \in s.em .. Good(s.credit), p \in (IF Buffered THEN {0} ELSE s.pulled .. Good(s.credit)),
-          fin \in {"none", Final(s.credit)} :
+    /\ \E e \in s.em .. Good(Eff(s.credit)), p \in (IF Buffered THEN {0} ELSE s.pulled .. Good(Eff(s.credit))),
+          fin \in {"none", Final(Eff(s.credit))} :
           /\ e <= (IF Buffered THEN e ELSE p)
-          /\ (fin = "complete" => e = Good(s.credit))
+          /\ (Replenish /\ ~Buffered => p <= e + s.credit)      \* credit comes back only with the elements handed over
+          /\ (fin = "complete" => e = Good(Eff(s.credit)))
           /\ s' = [s EXCEPT !.em = e, !.pulled = p, !.term = fin, !.steps = @ + 1,
                             !.quiet = (fin # "none")]
 
@@ -102,16 +107,17 @@ Spec == Init /\ [][Next]_vars
 TypeOK == s.em \in 0..N /\ s.pulled \in 0..N /\ s.credit \in 0..Cap
           /\ s.term \in {"none", "complete", "error", "cancelled"}
 (* C06: never more elements than credit received - neither handed to the subscriber nor pulled from the application *)
-WithinCredit == s.em <= s.credit /\ s.pulled <= s.credit
+Granted == IF Replenish THEN s.credit + s.em ELSE s.credit       \* what the subscriber has asked for so far
+WithinCredit == s.em <= Granted /\ s.pulled <= Granted
 (* C20: a back-pressure-aware source is asked for exactly what was granted *)
-AskedIsGranted == s.pulled <= s.credit /\ Len(s.asked) = s.calls
+AskedIsGranted == s.pulled <= Granted /\ Len(s.asked) = s.calls
 (* C06: every element is delivered once enough credit has been granted *)
 AllDeliveredWhenCreditSuffices ==
-    s.quiet /\ s.sub /\ s.term \in {"none", "complete"} => s.em = Good(s.credit)
+    s.quiet /\ s.sub /\ s.term \in {"none", "complete"} => s.em = Good(Eff(s.credit))
 (* C07 / C20: completion only after the last element; a failure is reported as an error, never as a completion *)
 CompleteOnlyAtTheEnd == s.term = "complete" => s.em = N /\ FailAt = 0
-ErrorPreserved == s.quiet /\ s.sub /\ Failing(s.credit) /\ s.term # "cancelled" => s.term = "error"
-CompletionWhenCreditSuffices == s.quiet /\ s.sub /\ Completing(s.credit) /\ s.term # "cancelled" => s.term = "complete"
+ErrorPreserved == s.quiet /\ s.sub /\ Failing(Eff(s.credit)) /\ s.term # "cancelled" => s.term = "error"
+CompletionWhenCreditSuffices == s.quiet /\ s.sub /\ Completing(Eff(s.credit)) /\ s.term # "cancelled" => s.term = "complete"
 (* C09: after cancel() nothing is produced any more *)
 NothingAfterCancel == [][s.term = "cancelled" => s'.em = s.em /\ s'.pulled = s.pulled /\ s'.term = "cancelled"]_vars
 (* C07: a terminal signal is final *)
